@@ -31,7 +31,8 @@ def plan(tier, seed):
         sc = ed.scenarios(D, rng)
         words += sc if tier != "quick" else rng.sample(sc, min(len(sc), 150))
         for w in words:
-            jobs.append((d, w, rng.random() < 0.25))
+            is_async = rng.random() < 0.25
+            jobs.append((d, w, is_async, "async" if rng.random() < 0.5 else "thread"))
     return jobs
 
 
@@ -97,7 +98,7 @@ def run(tier, seed, log=common.say):
             viol_counts[x["c"]] = viol_counts.get(x["c"], 0) + 1
             if kept.get(x["c"], 0) < 4:
                 kept[x["c"]] = kept.get(x["c"], 0) + 1
-                viols.append({"clause": x["c"], "i": x["i"], "d": t["d"], "ops": t["ops"], "async": t["async"], "ev": t["ev"]})
+                viols.append({"clause": x["c"], "i": x["i"], "d": t["d"], "ops": t["ops"], "async": t["async"], "sres": t.get("sres", "thread"), "ev": t["ev"]})
     out = {"engine": "E4", "tier": tier, "seed": seed, "histories": len(jobs), "distinct_traces": len(traces),
            "events": sum(len(t["ev"]) for t in traces), "harness_errors": [h["ev"][-1] for h in herr][:5],
            "harness_error_count": len(herr), "validated": len(verdicts), "states": states, "transitions": trans,
@@ -110,8 +111,9 @@ def run(tier, seed, log=common.say):
     return out
 
 
-NONTRIVIAL = {"C11": "setupskip", "C15": "reuse", "C18": "restart", "C03": "ops", "C12": "ops", "C14": "failed", "C19": "ops", "C01": "defaults"}
-RULE = {"C11": "histories in which an execution found setup values already computed on its instance",
+NONTRIVIAL = {"C09": "ops", "C17": "ops", "C11": "setupskip", "C15": "reuse", "C18": "restart", "C03": "ops", "C12": "ops", "C14": "failed", "C19": "ops", "C01": "defaults"}
+RULE = {"C09": "all histories (every operation must return or raise)", "C17": "all histories",
+        "C11": "histories in which an execution found setup values already computed on its instance",
         "C15": "histories in which an executor object was run a second time",
         "C18": "histories with a restart from a cache file",
         "C03": "all histories", "C12": "all histories", "C14": "histories with a failing call", "C19": "all histories",
@@ -128,7 +130,7 @@ def report(prop, res):
                       "what": f'{v["clause"]} at operation {v["i"]} ({e["op"]}) of history {[o[0] for o in v["ops"]]} on template {v["d"]}; '
                               f'{res["viol_counts"][v["clause"]]} such events in this run',
                       "replay": {"engine": "E4", "property": prop, "clause": v["clause"], "d": v["d"], "ops": v["ops"],
-                                 "async": v["async"], "observed": v["ev"]}})
+                                 "async": v["async"], "sres": v.get("sres", "thread"), "observed": v["ev"]}})
     mach = []
     wf = {k: n for k, n in res["viol_counts"].items() if k.startswith("WF.")}
     if wf:
@@ -162,7 +164,7 @@ def report(prop, res):
 def replay(payload, log=common.say):
     import e4_driver as ed
 
-    ev = ed.run_history(ed.TEMPLATES[payload["d"] - 1], payload["ops"], payload.get("async", False))
+    ev = ed.run_history(ed.TEMPLATES[payload["d"] - 1], payload["ops"], payload.get("async", False), payload.get("sres", "thread"))
     traces = [{"tid": 1, "d": payload["d"], "ev": ev}]
     verdicts, _, _, errs = validate(traces, ed.TEMPLATES)
     if errs:
